@@ -262,7 +262,11 @@ impl JxlImageBuilder {
             }
         };
 
-        while !image.inner.end_of_image {
+        // In a container, auxiliary boxes (Exif, XML, ...) may follow the last frame: keep
+        // reading so that they are not dropped or cut at the buffer edge.
+        while !image.inner.end_of_image
+            || image.reader.kind() == jxl_bitstream::BitstreamKind::Container
+        {
             let count = reader.read(&mut buf[buf_valid..])?;
             if count == 0 {
                 break;
